@@ -604,7 +604,8 @@ class Evaluator:
         if isinstance(obj, (list, dict, tuple, frozenset, str, ModelDict)):
             known = {"dict": ("keys", "items", "values", "get", "pop", "setdefault", "update", "copy", "clear"),
                      "list": ("append", "extend", "insert", "remove", "index", "count", "pop", "copy", "clear", "reverse", "sort"),
-                     "set": ("add", "update", "discard", "remove", "copy", "union", "pop", "clear", "difference", "intersection"),
+                     "set": ("add", "update", "discard", "remove", "copy", "union", "pop", "clear", "difference", "intersection",
+                             "isdisjoint", "issubset", "issuperset", "difference_update", "intersection_update"),
                      "tuple": ("index", "count"), "frozenset": ("union", "copy"),
                      "str": ("join", "format", "split", "strip", "lower", "upper", "startswith", "endswith", "replace")}
             kind = "set" if isinstance(obj, OSet) else ("dict" if isinstance(obj, (dict, ModelDict)) else type(obj).__name__)
@@ -850,6 +851,22 @@ class Evaluator:
                         if not self.contains(out, x, where):
                             out.append(x)
                 return out
+            if name in ("isdisjoint", "issubset", "issuperset") and len(args) == 1:
+                other = self.iterate(args[0], where)
+                if name == "isdisjoint":
+                    return not any(self.contains(obj, x, where) for x in other)
+                if name == "issuperset":
+                    return all(self.contains(obj, x, where) for x in other)
+                return all(any(self.equal(x, y) for y in other) for x in obj)
+            if name in ("difference", "intersection") and len(args) == 1:
+                other = self.iterate(args[0], where)
+                keep = (lambda x: not any(self.equal(x, y) for y in other)) if name == "difference" else (lambda x: any(self.equal(x, y) for y in other))
+                return OSet([x for x in obj if keep(x)])
+            if name in ("difference_update", "intersection_update") and len(args) == 1:
+                other = self.iterate(args[0], where)
+                keep = (lambda x: not any(self.equal(x, y) for y in other)) if name == "difference_update" else (lambda x: any(self.equal(x, y) for y in other))
+                obj[:] = [x for x in obj if keep(x)]
+                return None
             raise AnalysisError(f"absint: set.{name}() at {where}")
         if isinstance(obj, list):
             if name == "append":
